@@ -52,7 +52,7 @@ deriving Repr
 /-- Global order of the observable events of a run (compared with the real code, and what the
 property oracle reads). -/
 inductive EvR where
-  | call (k now : Nat)        -- history call k starts, `scheduler.now` = now
+  | call (k now nobs : Nat)   -- history call k starts, `scheduler.now` = now, `len(subject.observers)` = nobs
   | sub (j now : Nat)         -- subscribe(j) is attempted (top level or reaction)
   | unsub (j : Nat)           -- the handle of j's subscription is disposed
   | dispose                   -- subject.dispose()
@@ -312,7 +312,7 @@ def doTask (cfg : Cfg) (st : St α) : Task → St α
 
 /-- One history call, made by the harness inside its scheduled action. -/
 def doCall (cfg : Cfg) (st : St α) (k : Nat) (c : Call α) : St α :=
-  let st := { st with curCall := k, evs := st.evs ++ [EvR.call k st.clock] }
+  let st := { st with curCall := k, evs := st.evs ++ [EvR.call k st.clock st.observers.length] }
   match c with
   | .next v => emit cfg st (.next v)
   | .error e => emit cfg st (.error e)
